@@ -2,6 +2,7 @@ import WebrtcVerif.Base.Wire
 import WebrtcVerif.Drv.C05
 import WebrtcVerif.Drv.C22
 import WebrtcVerif.Drv.C36
+import WebrtcVerif.Drv.C40
 /-!
   wvdriver — line-protocol driver.
     wvdriver run    : stdin lines `<Cxx> <op…>`            → one model output line each
@@ -14,6 +15,7 @@ def runLine (toks : List String) : String :=
   | "C05" :: rest => Drv.C05.run rest
   | "C22" :: rest => Drv.C22.run rest
   | "C36" :: rest => Drv.C36.run rest
+  | "C40" :: rest => Drv.C40.run rest
   | _ => "bad-op"
 
 def judgeLine (toks : List String) : String :=
@@ -23,6 +25,7 @@ def judgeLine (toks : List String) : String :=
   | "C05" :: rest => Drv.C05.judge rest out
   | "C22" :: rest => Drv.C22.judge rest out
   | "C36" :: rest => Drv.C36.judge rest out
+  | "C40" :: rest => Drv.C40.judge rest out
   | _ => "bad-judge"
 
 partial def loop (h : IO.FS.Stream) (out : IO.FS.Stream) (f : List String → String) : IO Unit := do
